@@ -51,6 +51,25 @@ func decodePaths() []decodePath {
 			t, _, err := invocation.FromSealedReader(bytes.NewReader(b))
 			return t, err
 		}},
+		// readers that hand over their last bytes together with io.EOF, and one byte at a time
+		{"cbor/generic/reader-eof-with-data", "cbor", func(_ string, b []byte) (any, error) {
+			t, _, err := token.FromSealedReader(&chunkReader{data: b, chunk: 7, eofWithData: true})
+			return t, err
+		}},
+		{"cbor/typed/reader-eof-with-data", "cbor", func(kind string, b []byte) (any, error) {
+			if kind == "dlg" {
+				t, _, err := delegation.FromSealedReader(&chunkReader{data: b, eofWithData: true})
+				return t, err
+			}
+			t, _, err := invocation.FromSealedReader(&chunkReader{data: b, eofWithData: true})
+			return t, err
+		}},
+		{"json/typed/reader-eof-with-data", "json", func(kind string, b []byte) (any, error) {
+			if kind == "dlg" {
+				return delegation.FromDagJsonReader(&chunkReader{data: b, chunk: 1, eofWithData: true})
+			}
+			return invocation.FromDagJsonReader(&chunkReader{data: b, chunk: 1, eofWithData: true})
+		}},
 		{"json/generic/bytes", "json", func(_ string, b []byte) (any, error) { return token.FromDagJson(b) }},
 		{"json/generic/reader", "json", func(_ string, b []byte) (any, error) { return token.FromDagJsonReader(bytes.NewReader(b)) }},
 		{"json/typed/bytes", "json", func(kind string, b []byte) (any, error) {
@@ -110,7 +129,7 @@ func c07Sub(algs func(tier string) []string, d func(tier string) int) *engine.Su
 	paths := decodePaths()
 	return &engine.Sub{
 		Name: "seal-unseal-roundtrip",
-		Rule: "deviation-bounded product of constructor options (base token + every combination of at most d deviating option values) for delegations and invocations x key algorithm; each constructed token is sealed (DAG-CBOR) and encoded (DAG-JSON) and decoded through 8 paths {cbor,json} x {generic,typed} x {bytes,reader}; all fields must agree with the original (times at whole seconds), and the typed accessors (Meta().GetBool/GetString/GetInt64/GetFloat64/GetBytes/GetNode, Arguments().GetNode) must agree with the iterated content of the same token; non-trivial = tokens accepted by the constructor",
+		Rule: "deviation-bounded product of constructor options (base token + every combination of at most d deviating option values) for delegations and invocations x key algorithm; each constructed token is sealed (DAG-CBOR) and encoded (DAG-JSON) and decoded through 11 paths {cbor,json} x {generic,typed} x {bytes, reader, reader delivering its last bytes together with io.EOF}; all fields must agree with the original (times at whole seconds), and the typed accessors (Meta().GetBool/GetString/GetInt64/GetFloat64/GetBytes/GetNode, Arguments().GetNode) must agree with the iterated content of the same token; non-trivial = tokens accepted by the constructor",
 		Bound: func(t string) string {
 			return fmt.Sprintf("d<=%d deviating options, algorithms %v, 8 decode paths", d(t), algs(t))
 		},
